@@ -163,6 +163,24 @@ def oracle(case, il):
     return None
 
 
+def measure(case, raw):
+    p = parse(raw)
+    if p is None:
+        return {"unreadable_cases": 1}
+    setup, threads, final, locks = p
+    progs = lock_programs(locks)
+    return {"client_threads": len(threads), "statements": sum(len(t) for t in threads), "tapped_threads": len(progs),
+            "lock_events": sum(len(x) for x in progs),
+            "latch_held_while_requesting": sum(1 for x in progs for i, e in enumerate(x) if e[0] == "a" and _held_before(x, i))}
+
+
+def _held_before(seq, i):
+    held = 0
+    for k, o, m in seq[:i]:
+        held += 1 if k == "a" else -1
+    return held > 0
+
+
 def lock_programs(locks):
     """-> list of per-thread programs [(kind, obj, mode)]"""
     progs = []
@@ -251,7 +269,7 @@ class C14(Spec):
                      "Frame::is_free) and wall-clock bounds are observed by the stress runs only",
                      "rank certificates are computed in python and only checked (inside Coq) - they are not trusted"]
     streams = [Stream("threads", "mt", ["Model.Locks", "Model.LocksRun"], None, gen_cases, oracle=oracle, rust_shards=4,
-                      post=post, post_runner="check_locks_case", shard=10)]
+                      post=post, post_runner="check_locks_case", shard=10, measure=measure)]
 
     def known_class(self, k, case):
         return k.get("class") in case.meta.get("classes", [])
